@@ -1009,6 +1009,17 @@ std::ostream& expression_t::print_bound_type(std::ostream& os, expression_t e) c
     return os;
 }
 
+/**
+ * The bound of a statistical query: `<=e`, `#<=e` or `l<=e`. The last form is read back as one expression that is split at
+ * its top `<=`, so it is written as that expression: the operands get the parentheses `l <= e` needs.
+ */
+static std::ostream& print_bound(std::ostream& os, const expression_t& boundType, const expression_t& bound, bool old)
+{
+    if (boundType.get_kind() == CONSTANT)
+        return bound.print(os << (boundType.get_value() == 0 ? "#<=" : "<="), old);
+    return expression_t::create_binary(LE, boundType, bound).print(os, old);
+}
+
 static const char* get_builtin_fun_name(kind_t kind)
 {
     // the order must match declarations in include/utap/common.h
@@ -1116,8 +1127,7 @@ std::ostream& expression_t::print(std::ostream& os, bool old) const
     case PROBA_MIN_BOX: flag = true; [[fallthrough]];
     case PROBA_MIN_DIAMOND:
         os << "Pr[";
-        print_bound_type(os, get(1));
-        get(2).print(os, old);
+        print_bound(os, get(1), get(2), old);
         if (get(0).get_value() >= 0)
             get(0).print(os << "; ", old);
         os << (flag ? "]([] " : "](<> ");
@@ -1127,8 +1137,7 @@ std::ostream& expression_t::print(std::ostream& os, bool old) const
     case PROBA_BOX: flag = true; [[fallthrough]];
     case PROBA_DIAMOND:
         os << "Pr[";
-        print_bound_type(os, get(1));
-        get(2).print(os, old);
+        print_bound(os, get(1), get(2), old);
         if (get(0).get_value() >= 0)
             get(0).print(os << "; ", old);
         if (flag || get(4).is_true()) {
@@ -1142,8 +1151,7 @@ std::ostream& expression_t::print(std::ostream& os, bool old) const
 
     case PROBA_EXP:
         os << "E[";
-        print_bound_type(os, get(1));
-        get(2).print(os, old);
+        print_bound(os, get(1), get(2), old);
         if (get(0).get_value() >= 0)
             get(0).print(os << "; ", old);
         os << "] (" << (get(3).get_value() ? "max: " : "min: ");
@@ -1152,14 +1160,12 @@ std::ostream& expression_t::print(std::ostream& os, bool old) const
 
     case PROBA_CMP:
         os << "Pr[";
-        print_bound_type(os, get(0));
-        get(1).print(os, old) << "] (";
+        print_bound(os, get(0), get(1), old) << "] (";
         os << (get(2).get_value() == kind_t::BOX ? "[] " : "<> ");
         get(3).print(os, old) << ") >= ";
 
         os << "Pr[";
-        print_bound_type(os, get(4));
-        get(5).print(os, old) << "] (";
+        print_bound(os, get(4), get(5), old) << "] (";
         os << (get(6).get_value() == kind_t::BOX ? "[] " : "<> ");
         get(7).print(os, old) << ")";
         break;
@@ -1167,8 +1173,7 @@ std::ostream& expression_t::print(std::ostream& os, bool old) const
     case DIAMOND: os << "<>"; break;
     case SIMULATEREACH:
         os << "simulate[";
-        print_bound_type(os, get(1));
-        get(2).print(os, old) << "; ";
+        print_bound(os, get(1), get(2), old) << "; ";
         get(0).print(os, old) << "] {";
         nb = get_size() - 5;
         if (nb > 0) {
@@ -1182,8 +1187,7 @@ std::ostream& expression_t::print(std::ostream& os, bool old) const
         break;
     case SIMULATE:
         os << "simulate[";
-        print_bound_type(os, get(1));
-        get(2).print(os, old) << "; ";
+        print_bound(os, get(1), get(2), old) << "; ";
         get(0).print(os, old) << "] {";
         nb = get_size() - 3;
         if (nb > 0) {
@@ -1519,8 +1523,7 @@ std::ostream& expression_t::print(std::ostream& os, bool old) const
     case SMC_CONTROL:
         assert(false);
         os << "control[";
-        print_bound_type(os, get(0));
-        get(1).print(os, old) << "]: ";
+        print_bound(os, get(0), get(1), old) << "]: ";
         get(2).print(os, old);
         break;
 
